@@ -56,7 +56,7 @@ def build_harness(profile="dev", serde=True):
     if key in _built:
         return _built[key]
     tdir = "target" if serde else "target-noserde"
-    cmd = ["cargo", "build", "--offline", "--quiet", "--target-dir", tdir]
+    cmd = ["cargo", "build", "--offline", "--quiet", "--bin", "vh", "--target-dir", tdir]
     if profile != "dev":
         cmd += ["--profile", profile]
     if not serde:
